@@ -58,6 +58,9 @@ P = {
  "C15": ("edge guards, option provenance, defer/ordering path rules, dependency SSA reachability (os.Remove), decision table of the size handler",
          "Handler only on the nil edge of the declared-length check and the success edge of multibuf.New(MaxBytes(maxRequestBodyBytes)); the check refuses ContentLength>max with MaxSizeReachedError -> 413; response writer limited by MaxBytes(maxResponseBodyBytes), write error recorded, relay only on writeError==nil; (from the dependency's SSA) only closing a reader removes the spill file, so a release routine that takes and closes the reader is deferred after the writer's creation, before the handler, in every iteration, and every reader taken has its Close deferred at once; request buffer closed by a deferred call. Level 'other'.",
          "NOT decided: threshold arithmetic inside multibuf. Trusted: go/ssa, analyser, os/ioutil.", "3/C15"),
+ "C08": ("paired-field value provenance, edge guards per header key, registry exhaustiveness, decision tables, ordering derived from the installed stdlib's SSA",
+         "Path/RawPath/RawQuery copied from one URL that is ParseRequestURI(req.RequestURI) on success else req.URL, RequestURI cleared; HTTP/1.1 constants; Host rewritten exactly when pass-through is off; every forwarding header set only on its own Get(K)==\"\" edge, proto by TLS, X-Real-Ip = host of SplitHostPort(RemoteAddr) before zone stripping, port from Host else 443/80; XHeaders exhaustive and removed first when untrusted; forward.New delegates to httputil.ReverseProxy, does not strip hop-by-hop headers itself, and must set its headers in a hook that the installed stdlib runs after hop-by-hop removal (derived from reverseproxy's SSA). Level 'other'.",
+         "Known finding K1: the hook is Director (runs before hop-by-hop removal) - printed as KNOWN-FINDING, not repaired because the repair breaks a pinned test. NOT decided: stdlib escaping / hop-by-hop behaviour itself (trusted). Trusted: go/ssa, analyser, net/http/httputil.", "3/C08"),
 }
 
 NA = {}
